@@ -2,7 +2,7 @@
    Statements only; proofs in Proofs/SatIndex_partition.v and Proofs/SatIndex_proofs.v.
    [run] is the sat-index model of Index/SatIndex.v; [all_sats st] = the sats of all unspent
    outputs followed by the lost sats; [destroyed st] = ranges dropped by duplicate txids. *)
-From OrdV Require Import Base.Prelude Generated Index.SatIndex Proofs.SatIndex_proofs Proofs.SatIndex_partition Properties.C01.
+From OrdV Require Import Base.Prelude Generated Index.SatIndex Proofs.SatIndex_proofs Proofs.SatIndex_partition Proofs.SatIndex_rare Properties.C01.
 From Coq Require Import Permutation.
 
 (* At every indexed height of every chain the model indexes (every valid chain: next theorem),
@@ -82,24 +82,32 @@ Qed.
 Theorem C02_list : forall st o, list_ranges st o = aget op_eqb o (entries st).
 Proof. exact list_is_entry. Qed.
 
-(* Rare-sat table, PARTIAL.  Full statement (not proved): for every reachable state,
-     rare st s = Some (o, k)  <->  common s = false /\ s starts a stored range of entry o at offset k,
-   except for sats destroyed by a duplicate txid (known finding displaced-rare-sat, whose entries
-   stay).  Proved here: every range placed in an output (resp. appended to the lost sats) whose first
-   sat is not common is written to SAT_TO_SATPOINT with that outpoint and the range's offset in it.
-   That the last write of a block wins and no older entry is stale is tied by correspondence only. *)
-Theorem C02_rare_written_partial :
-  (forall rs op v a rest w, take_sats op v v rs = Ok (a, rest, w) ->
-     forall i s e, nth_error a i = Some (s, e) -> common s = false ->
-     In (s, (op, total (firstn i a))) w) /\
-  (forall ls off i s e, nth_error ls i = Some (s, e) -> common s = false ->
-     In (s, (NULL_OP, off + total (firstn i ls))) (fst (lost_writes ls off))).
+(* The rare-sat table SAT_TO_SATPOINT, at every indexed height.
+   Complete: every stored range (of an unspent output or of the lost sats) whose first sat is not
+   common has an entry giving its outpoint and the offset of the range inside it; the LostSats
+   statistic is the size of the null-outpoint entry.
+   Sound: whatever the table reports for a sat is a non-common sat that starts a stored range at
+   exactly that outpoint and offset -- except for sats that started a range destroyed by a
+   duplicate txid, whose entries are never removed (known finding displaced-rare-sat, witness
+   below). *)
+Theorem C02_rare_table : forall c st,
+  nonempty_blocks c -> run c = Ok st ->
+  (forall o rs i s e, aget op_eqb o (utxo st) = Some rs -> nth_error rs i = Some (s, e) -> common s = false ->
+     rare st s = Some (o, total (firstn i rs))) /\
+  (forall i s e, nth_error (lost st) i = Some (s, e) -> common s = false ->
+     rare st s = Some (NULL_OP, total (firstn i (lost st)))) /\
+  lost_sats st = total (lost st) /\
+  (forall s o k, rare st s = Some (o, k) ->
+     common s = false /\
+     ((exists rs i e, aget op_eqb o (utxo st) = Some rs /\ nth_error rs i = Some (s, e) /\ k = total (firstn i rs)) \/
+      (o = NULL_OP /\ exists i e, nth_error (lost st) i = Some (s, e) /\ k = total (firstn i (lost st))) \/
+      In s (starts (destroyed st)))).
 Proof.
-  split.
-  - intros rs op v a rest w H i s e Hn Hc.
-    pose proof (take_sats_writes rs op v v a rest w H (N.le_refl v) i s e Hn Hc) as G.
-    replace (v - v + total (firstn i a)) with (total (firstn i a)) in G by lia. exact G.
-  - exact lost_writes_in.
+  intros c st NE H. destruct (rare_table_invariant c st NE H) as [RM [RL LS]].
+  split; [|split; [|split; [exact LS|]]].
+  - intros o rs i s e G Hi Hc. unfold rare. rewrite (RM o rs G i s e Hi Hc). reflexivity.
+  - intros i s e Hi Hc. unfold rare. rewrite (RL i s e Hi Hc). reflexivity.
+  - intros s o k R. exact (rare_table_sound c st s o k NE H R).
 Qed.
 
 (* Known finding displaced-rare-sat, in the model (which mirrors the code: SAT_TO_SATPOINT entries
@@ -135,5 +143,5 @@ Print Assumptions C02_ranges_wellformed.
 Print Assumptions C02_find.
 Print Assumptions C02_find_range.
 Print Assumptions C02_list.
-Print Assumptions C02_rare_written_partial.
+Print Assumptions C02_rare_table.
 Print Assumptions C02_known_displaced_rare_sat.
